@@ -193,9 +193,9 @@ func main() {
 				queue = queue[:0]
 				queue = append(queue, cur)
 				found := -1
-				// the search for the nearest state with an untraversed edge is cut off after 50 000 states: a new walk
+				// the search for the nearest state with an untraversed edge is cut off after 5000 states: a new walk
 				// from the initial state (below) reaches what is left, coverage is unaffected
-				for qi := 0; qi < len(queue) && found < 0 && qi < 50000; qi++ {
+				for qi := 0; qi < len(queue) && found < 0 && qi < 5000; qi++ {
 					x := queue[qi]
 					for _, e := range out[x] {
 						if stamp[e.to] != epoch {
